@@ -184,6 +184,7 @@ def check(program: Program, run: Run) -> None:
     run.rule("R2 per statement: every clause attribute rendered as term/table slot is rewritten by the effective replace_table; FROM items are recursed into")
     run.rule("R3 every x.replace_table(...) inside a replace_table resolves to a definition for the declared class of x; sibling classes agree on how a shared attribute is rewritten")
     run.rule("R4 every replace_table definition other than the Term no-op is @builder")
+    run.rule("R5b replace_table has no early exit except on identity / None / type tests (== between tables is coarser than their rendering)")
     run.rule("R5 a child is rewritten unconditionally: the only tests allowed around x.replace_table(...) are type/None tests on x or comparisons with the tables being exchanged")
     term = program.cls("Term")
     sel = program.cls("Selectable")
@@ -250,6 +251,30 @@ def check(program: Program, run: Run) -> None:
                         run.finding(f"C16/conditional-rewrite:{f.qualname}:{a5}", f"{f.qualname} rewrites a child only when `{ast.unparse(t)[:60]}` holds: children for which the test is false keep the old table "
                                     "(e.g. a subquery reports no fields of its own but contains references)", where=f.loc(n), rule="R5")
                 x = par
+    # R5b: leaving replace_table early skips every rewrite below.  `current_table == new_table` is not a reason to: equality
+    # of tables (name, schema, alias) is coarser than their rendering (the temporal FOR clause), so an "equal" replacement
+    # can still change the SQL.  Only identity / None / type tests may guard an early exit.
+    def _identity_test(t) -> bool:
+        if isinstance(t, ast.UnaryOp) and isinstance(t.op, ast.Not):
+            return _identity_test(t.operand)
+        if isinstance(t, ast.BoolOp):
+            return all(_identity_test(v) for v in t.values)
+        if isinstance(t, ast.Compare):
+            return all(isinstance(o, (ast.Is, ast.IsNot)) for o in t.ops)
+        return isinstance(t, ast.Call) and isinstance(t.func, ast.Name) and t.func.id == "isinstance"
+    nexit = 0
+    for f in defs:
+        if f is noop:
+            continue
+        for n in ast.walk(f.node):
+            if isinstance(n, ast.If) and any(isinstance(x, (ast.Return, ast.Raise)) for b in (n.body, n.orelse) for x in b):
+                nexit += 1
+                ok5 = _identity_test(n.test)
+                run.ob("C16/R5b no early exit from replace_table on anything but an identity/None/type test", f"{f.qualname}:{ast.unparse(n.test)[:50]}", ok5, where=f.loc(n))
+                if not ok5:
+                    run.finding(f"C16/early-exit:{f.qualname}", f"{f.qualname} returns before rewriting anything when `{ast.unparse(n.test)[:60]}` holds: equality of tables ignores the temporal clause "
+                                "(and whatever else == does not compare), so a replacement that changes the rendering is skipped", where=f.loc(n), rule="R5b")
+    run.ob("C16/R5b no early exit from replace_table on anything but an identity/None/type test", "all replace_table definitions", True, detail=f"{nexit} early exits examined", nontrivial=False)
     run.ob("C16/R5 child rewritten unconditionally", "all replace_table definitions", True, detail=f"{nrw} nested replace_table calls examined", nontrivial=False)
     if nrw < 40:
         raise AnalysisError(f"instance count below floor: nested replace_table calls {nrw}")
